@@ -6,8 +6,11 @@ sys.path.insert(0, HERE)
 ALL = ["C%02d" % i for i in range(1, 21)]
 BASELINE = "cd /repo && /venv/bin/python -m pytest -ra -q -p no:cacheprovider --timeout=900 --continue-on-collection-errors"
 checks, na = [], []
+READY = set(json.load(open(os.path.join(HERE, "harness", "ready.json"))))
 for p in ALL:
     try:
+        if p not in READY:
+            raise ModuleNotFoundError(p)
         m = importlib.import_module("harness." + p.lower())
     except ModuleNotFoundError:
         na.append(dict(property_id=p, reason="check not built yet (work in progress; planned per DESIGN.md §3)"))
